@@ -92,6 +92,11 @@ func (s *streamHandler) handleSubscriptions(subs []*SubscriptionOpts) {
 	s.m.mtx.Lock()
 	defer s.m.mtx.Unlock()
 
+	// ignore a stream that was replaced by a newer stream of the same link
+	if s.m.peers[s.tpl] != s {
+		return
+	}
+
 	for _, sub := range subs {
 		chid := sub.GetChannelId()
 		if chid == "" {
